@@ -132,7 +132,23 @@ class Real:
         return h
 
     def contents(self):
+        """Contents as the live object reports them (a read operation: flushes buffers, may rebuild the index, moves the file position)."""
         return [model.from_point(p) for p in self.db.all(sorted=False)]
+
+    NON_DIALECT = ("flush_on_insert", "encoding", "access_mode", "create_dirs", "newline")
+
+    def observe(self):
+        """Contents observed WITHOUT operating the database object, so that the harness does not disturb the state under test:
+        memory: plain iteration (no read decorator, no reindex); CSV with flush_on_insert: the file decoded by the independent reader."""
+        if self.kind == "mem":
+            return [model.from_point(p) for p in iter(self.db)]
+        if self.kwargs.get("flush_on_insert", True):
+            from . import csvref
+
+            with open(self.path, "rb") as f:
+                data = f.read()
+            return csvref.decode(data, self.kwargs.get("encoding"), {k: v for k, v in self.kwargs.items() if k not in self.NON_DIALECT})
+        return self.contents()
 
     def close(self):
         try:
@@ -157,6 +173,7 @@ class Lockstep:
         self.last_probe = None
         self.last_query = None
         self.step_hooks = []
+        self.defer_contents = True
         self.pre_hooks = []
         self.post_hooks = []
 
@@ -173,7 +190,7 @@ class Lockstep:
 
             tb = traceback.extract_tb(e.__traceback__)
             where = ["%s:%d %s" % (os.path.basename(f.filename), f.lineno, f.name) for f in tb if "tinyflux" in f.filename][-2:]
-            self.fail(sub + "-raised", real, "unexpected %s: %s at %s" % (type(e).__name__, str(e)[:200], where))
+            self.fail(sub + "-raised", real, "unexpected %s: %s at %s" % (type(e).__name__, str(e)[:160], where))
 
     def expect_raise(self, real, sub, fn, excs):
         try:
@@ -189,26 +206,35 @@ class Lockstep:
             r.close()
 
     # ---- the invariant after every step
-    def check_contents(self, what="contents"):
+    def check_contents(self, what="contents", through_api=False):
         exp = self.model.points
         for real in self.reals:
-            got = self.call(real, what, real.contents)
+            got = self.call(real, what, real.contents if through_api else real.observe)
             if got != exp:
                 self.fail(what, real, "all(sorted=False) differs from the model: got %d points %s, expected %d points %s" % (len(got), brief(got), len(exp), brief(exp)))
         self.ctx.acc.ev(len(self.reals))
 
+    READS = ("probe", "probe_hit", "getters")
+
     def run(self, ops):
         try:
-            for op in ops:
+            for i, op in enumerate(ops):
                 self.log.append(op)
                 for h in self.pre_hooks:
                     h(self, op)
                 getattr(self, "op_" + op[0])(*op[1:])
                 for h in self.post_hooks:  # run before anything reads the databases again
                     h(self, op)
-                self.check_contents()
+                # Contents are observed after every step without operating the database object (Real.observe): a harness read
+                # through the API would flush buffers, rebuild an invalid index and move the file position, i.e. mask defects
+                # that need "the very next operation" to manifest.  Configurations that cannot be observed passively
+                # (flush_on_insert=False) are read through the API, but not right before a read operation of the history.
+                nxt = ops[i + 1][0] if i + 1 < len(ops) else None
+                if not (self.defer_contents and nxt in self.READS and op[0] not in self.READS):
+                    self.check_contents()
                 for h in self.step_hooks:
                     h(self, op)
+            self.check_contents("final-contents", through_api=True)
         finally:
             self.close()
 
@@ -417,6 +443,18 @@ class Lockstep:
         self.flags.add("raised")
 
     def op_bad_insert(self, kind):
+        if kind == "overflow_int":
+            # a valid Point that CSV storage cannot serialize (int beyond the float range, see C05/KF-int-overflow): the insert
+            # raises on CSV databases and must leave them untouched; memory databases accept the point, so they are not given it
+            from tinyflux import Point
+
+            for real in self.reals:
+                if real.kind != "csv":
+                    continue
+                p = Point(time=gen.T0 + timedelta(days=900), measurement="m1", tags={"a": "x"}, fields={"a": 10**400})
+                self.expect_raise(real, "bad_insert-" + kind, lambda: real.db.insert(p), (OverflowError, ValueError, TypeError))
+            self.flags.add("raised")
+            return
         for real in self.reals:
             bad = {"dict": {"time": 1}, "none": None, "str": "point", "tuple": (1, 2)}[kind]
             self.expect_raise(real, "bad_insert-" + kind, lambda: real.db.insert(bad), (TypeError, ValueError))
@@ -554,16 +592,23 @@ class Lockstep:
                 self.ctx.acc.ev()
 
             if not use_h:
-                cmp("get_measurements", self.call(real, "getter", db.get_measurements), mod.get_measurements())
-                cmp("len", self.call(real, "getter", len, db), len(mod.points))
-                cmp("iter", pts(self.call(real, "getter", list, iter(db))), mod.points)
-                cmp("all-sorted", pts(self.call(real, "getter", db.all)), model.time_sorted(mod.points))
                 a = [m] if m is not None else []
-                cmp("get_tag_keys", self.call(real, "getter", db.get_tag_keys, *a), mod.get_tag_keys(m))
-                cmp("get_field_keys", self.call(real, "getter", db.get_field_keys, *a), mod.get_field_keys(m))
-                cmp("get_tag_values", self.call(real, "getter", db.get_tag_values, list(tag_keys), *a), mod.get_tag_values(tag_keys, m))
-                cmp("get_field_values", self.call(real, "getter", db.get_field_values, field_key, *a), mod.get_field_values(field_key, m))
-                cmp("get_timestamps", self.call(real, "getter", db.get_timestamps, *a), mod.get_timestamps(m))
+                calls = [
+                    lambda: cmp("get_measurements", self.call(real, "getter", db.get_measurements), mod.get_measurements()),
+                    lambda: cmp("len", self.call(real, "getter", len, db), len(mod.points)),
+                    lambda: cmp("iter", pts(self.call(real, "getter", list, iter(db))), mod.points),
+                    lambda: cmp("all-sorted", pts(self.call(real, "getter", db.all)), model.time_sorted(mod.points)),
+                    lambda: cmp("get_tag_keys", self.call(real, "getter", db.get_tag_keys, *a), mod.get_tag_keys(m)),
+                    lambda: cmp("get_field_keys", self.call(real, "getter", db.get_field_keys, *a), mod.get_field_keys(m)),
+                    lambda: cmp("get_tag_values", self.call(real, "getter", db.get_tag_values, list(tag_keys), *a), mod.get_tag_values(tag_keys, m)),
+                    lambda: cmp("get_field_values", self.call(real, "getter", db.get_field_values, field_key, *a), mod.get_field_values(field_key, m)),
+                    lambda: cmp("get_timestamps", self.call(real, "getter", db.get_timestamps, *a), mod.get_timestamps(m)),
+                ]
+                # which getter comes first after the preceding write varies with the position in the history
+                # (a getter that is wrong only until some other read has touched the file must get its turn to go first)
+                r = (len(self.log) * 4 + len(tag_keys)) % len(calls)
+                for c in calls[r:] + calls[:r]:
+                    c()
             else:
                 cmp("h.len", self.call(real, "getter", len, h), len(mod.of(m)))
                 cmp("h.iter", pts(self.call(real, "getter", list, iter(h))), mod.of(m))
@@ -591,7 +636,8 @@ def brief(points, n=4):
         if p is None:
             return "None"
         t = p["time"].isoformat()[5:26] if hasattr(p["time"], "isoformat") else "INVALID-TIME:%r" % (p["time"],)
-        return "(%s %s %s %s)" % (t, p["measurement"], p["tags"], p["fields"])
+        tags = {k: (v[:12] + "...(%d chars)" % len(v) if isinstance(v, str) and len(v) > 40 else v) for k, v in p["tags"].items()} if isinstance(p["tags"], dict) else p["tags"]
+        return "(%s %s %s %s)" % (t, p["measurement"], tags, p["fields"])
 
     s = ", ".join(one(p) for p in points[:n])
     return "[" + s + (", ...+%d" % (len(points) - n) if len(points) > n else "") + "]"
